@@ -32,6 +32,8 @@ def make(cls, rnd, variant=None):
     if cls == "reread":
         r = GC.gen_reread(rnd)
         return (r, "plain", None) if r is not None else None
+    if cls == "rewrite":
+        return GC.gen_rewrite(rnd), "plain", None
     if cls == "flatten3":
         return GM.gen_flatten3_discordant(rnd), "plain", None
     if cls == "flatten-lookup":
